@@ -265,7 +265,16 @@ struct Lower {
   bool nonTrivialDtor(QualType T) {
     T = T.getCanonicalType();
     while (auto* AT = C.getAsConstantArrayType(T)) T = AT->getElementType();
-    if (auto* RD = T->getAsCXXRecordDecl()) return RD->hasDefinition() && !RD->hasTrivialDestructor();
+    if (auto* RD = T->getAsCXXRecordDecl()) {
+      if (!RD->hasDefinition() || RD->hasTrivialDestructor()) return false;
+      // a union's variant members are never destroyed implicitly; an (anonymous) union whose
+      // destructor is deleted or implicit contributes nothing to its enclosing destructor
+      if (RD->isUnion()) {
+        const CXXDestructorDecl* DD = RD->getDestructor();
+        return DD && DD->isUserProvided();
+      }
+      return true;
+    }
     return false;
   }
   // destructor call statement for object expression `obj` (an lvalue) of type T
@@ -291,6 +300,19 @@ struct Lower {
     std::string n = "__t" + std::to_string(tmpCounter++);
     cx.pre += "  " + declare(T.getNonReferenceType().getUnqualifiedType(), n) + ";\n";
     return n;
+  }
+
+  // Registers the destructor of temporary `t` to run at the end of the full-expression.  Inside a
+  // conditionally evaluated operand (&&, ||, ?:) a flag records whether it was constructed.
+  std::string registerTemp(Ctx& cx, QualType T, const std::string& t) {
+    if (!cx.condDepth) {
+      cx.post.push_back(dtorCall(T, t));
+      return "";
+    }
+    std::string f = "__f" + std::to_string(tmpCounter++);
+    cx.pre += "  _Bool " + f + " = 0;\n";
+    cx.post.push_back("if (" + f + ") { " + dtorCall(T, t) + " }");
+    return f + " = 1, ";
   }
 
   std::map<const VarDecl*, std::string> localNames;
@@ -563,15 +585,19 @@ struct Lower {
       const Expr* Sub = MT->getSubExpr()->IgnoreParens();
       if (isa<CXXBindTemporaryExpr>(Sub)) return ex(Sub, cx);  // shares the bound temporary's storage
       std::string t = newTmp(cx, MT->getType());
-      return "(*(" + initInto(t, MT->getType().getNonReferenceType(), Sub, cx) + ", &" + t + "))";
+      QualType TT = MT->getType().getNonReferenceType().getUnqualifiedType();
+      std::string flag;
+      // a full-expression temporary (initInto peels the inner CXXBindTemporaryExpr without
+      // registering it): destroy it at the end of the full-expression
+      if (nonTrivialDtor(TT)) flag = registerTemp(cx, TT, t);
+      return "(*(" + flag + initInto(t, MT->getType().getNonReferenceType(), Sub, cx) + ", &" + t + "))";
     }
     if (auto* EW = dyn_cast<ExprWithCleanups>(E)) return ex(EW->getSubExpr(), cx);
     if (auto* BT = dyn_cast<CXXBindTemporaryExpr>(E)) {
       QualType T = BT->getType();
       std::string t = newTmp(cx, T);
-      if (cx.condDepth) die("temporary with non-trivial destructor inside a conditional operand", E);
-      cx.post.push_back(dtorCall(T, t));
-      return "(*(" + initInto(t, T, BT->getSubExpr(), cx) + ", &" + t + "))";
+      std::string flag = registerTemp(cx, T, t);
+      return "(*(" + flag + initInto(t, T, BT->getSubExpr(), cx) + ", &" + t + "))";
     }
     if (auto* UO = dyn_cast<UnaryOperator>(E)) {
       std::string s = ex(UO->getSubExpr(), cx);
@@ -789,8 +815,9 @@ struct Lower {
         auto* CE = dyn_cast<CXXConstructExpr>(S);
         if (CE && !CE->getConstructor()->isTrivial()) {
           std::string t = newTmp(cx, PT);
-          if (nonTrivialDtor(PT)) { if (cx.condDepth) die("class argument with destructor inside conditional", A); cx.post.push_back(dtorCall(PT, t)); }
-          a = "(" + initInto(t, PT, S, cx) + ", " + t + ")";
+          std::string flag;
+          if (nonTrivialDtor(PT)) flag = registerTemp(cx, PT, t);
+          a = "(" + flag + initInto(t, PT, S, cx) + ", " + t + ")";
         } else {
           if (nonTrivialDtor(PT)) die("by-value class argument with non-trivial destructor from non-constructor expression", A);
           a = ex(A, cx);
